@@ -21,7 +21,7 @@ theorem lookup_none_iff (k : String) (l : List (String × Nat)) :
   | cons p l ih =>
     obtain ⟨a, b⟩ := p
     by_cases h : k = a
-    · subst h; simp [List.lookup_cons]
+    · subst h; simp
     · have : (k == a) = false := by simpa using h
       simp [List.lookup_cons, this, ih, h]
 
@@ -38,7 +38,7 @@ theorem filter_keys_ne (l : List (String × Nat)) (k : String) (h : k ∉ l.map 
   | cons p l ih =>
     have h1 : p.1 ≠ k := fun e => h (by simp [e])
     have h2 : k ∉ l.map Prod.fst := fun e => h (by simp [List.mem_map] at e ⊢; exact .inr e)
-    simp [List.filter_cons, h1, ih h2]
+    simp [h1, ih h2]
 
 def Defined (tbl : List Frag) (b : String) : Prop := b ∈ fragNames tbl
 
@@ -183,7 +183,7 @@ theorem black_mono {st st' : CState} (hidx : st'.index = st.index) (hm : ∀ x, 
 theorem step_spec {tbl : List Frag} {fuel : Nat} {rec : Frag → CState → CState}
     (hfr : FSpec tbl fuel rec) (hrec : DSpec tbl fuel rec) (f : Frag)
     (hself : lookupFrag tbl f.name.value = some f) (st : CState) (sp : Spread)
-    (hsp : sp.name ∈ spreadNames f.sel) (hon : f.name.value ∈ keys st)
+    (hsp : sp.name ∈ spreadNames f.sel) (_hon : f.name.value ∈ keys st)
     (hpath : ∀ k, k ∈ keys st → Reaches tbl k f.name.value)
     (hfuel : unc (fragNames tbl) st.visited < fuel) :
     Eff tbl st (stepSpread tbl rec st sp) (Defined tbl sp.name → Black (stepSpread tbl rec st sp) sp.name) := by
